@@ -446,6 +446,38 @@ def r12_annotations_mean_what_they_mean_where_they_are_written(ctx):
             sources = []
             seen = set()
             work = [first]
+            pm0 = parent_map(f.node)
+
+            def reaching(name):
+                """the definitions of `name` that can reach the call: the last one in a block that encloses the call,
+                and whatever comes after it (an earlier branch that returned does not reach)"""
+                chain = set()
+                cur = c
+                while cur in pm0:
+                    cur = pm0[cur]
+                    chain.add(id(cur))
+                defs = []
+                for n_ in ast.walk(f.node):
+                    val = None
+                    if isinstance(n_, ast.Assign) and any(isinstance(x, ast.Name) and x.id == name for t_ in n_.targets for x in ast.walk(t_)):
+                        val = n_.value
+                    elif isinstance(n_, ast.For) and any(isinstance(x, ast.Name) and x.id == name for x in ast.walk(n_.target)):
+                        val = n_.iter
+                    elif isinstance(n_, ast.comprehension) and any(isinstance(x, ast.Name) and x.id == name for x in ast.walk(n_.target)):
+                        val = n_.iter
+                    elif isinstance(n_, ast.NamedExpr) and n_.target.id == name:
+                        val = n_.value
+                    if val is None:
+                        continue
+                    ln = getattr(n_, "lineno", getattr(val, "lineno", 0))
+                    if ln > c.lineno:
+                        continue
+                    dominating = isinstance(n_, ast.stmt) and id(pm0.get(n_)) in chain and not isinstance(n_, ast.For)
+                    defs.append((ln, dominating, val))
+                defs.sort(key=lambda d: d[0])
+                last = max((i for i, d in enumerate(defs) if d[1]), default=None)
+                return [d[2] for d in (defs if last is None else defs[last:])]
+
             while work:
                 e = work.pop()
                 for x in ast.walk(e):
@@ -455,7 +487,7 @@ def r12_annotations_mean_what_they_mean_where_they_are_written(ctx):
                         sources.append(x.value)
                     elif isinstance(x, ast.Name) and isinstance(x.ctx, ast.Load) and x.id not in seen:
                         seen.add(x.id)
-                        work += defs_of(f.node, x.id)
+                        work += reaching(x.id)
             if not sources:
                 continue
             n_sites += 1
